@@ -205,16 +205,21 @@ def _main(args, prop, seed, t0, mod, known, open_known, known_keys, workdir):
     lines: list[str] = []
     violations = []
     known_hit: dict[str, dict] = {}
-    seen = set()
+    # one violation per root-cause key: keep the smallest failing input of each key
+    by_key: dict[str, dict] = {}
+    n_failing_inputs = 0
     for f in failures:
         if f["key"] in known_keys:
             known_hit[f["key"]] = f
             continue
-        sig = (f["key"], json.dumps(f["descriptor"], sort_keys=True, default=repr))
-        if sig in seen:
-            continue
-        seen.add(sig)
-        violations.append(f)
+        n_failing_inputs += 1
+        size = len(json.dumps(f["descriptor"], sort_keys=True, default=repr))
+        if f["key"] not in by_key or size < by_key[f["key"]]["_size"]:
+            by_key[f["key"]] = {**f, "_size": size}
+    for k in sorted(by_key):
+        v = dict(by_key[k])
+        v.pop("_size")
+        violations.append(v)
 
     rep_dir = ROOT / "evidence" / "replays"
     for v in violations:
